@@ -51,7 +51,10 @@ def check_noise(case):
     a, snr, db, std, path = case["a"], case["snr"], case["db"], case["std"], case["path"]
     key = {"path": path, "db": db, "per_sample": isinstance(snr, list), "std_only": snr is None}
     fa = [float(v) for v in a]
-    arr = np.array(fa)
+    adt = case.get("a_dtype")
+    arr = np.array(fa) if not adt else np.array([int(v) for v in a], dtype=adt)   # integer-typed signals (bit/s counters)
+    if adt:
+        key["a_dtype"] = adt
     keep = arr.copy()
     kw = {"snr_in_db": db}
     if std is not None:
@@ -87,7 +90,7 @@ def check_noise(case):
         fails.append(fail("noise-not-zero-mean", {"loc": loc}, key))
     if tuple(np.atleast_1d(size)) != (len(fa),):
         fails.append(fail("noise-size", {"size": size}, key))
-    power = math.fsum(v * v for v in fa) / len(fa)
+    power = (math.fsum(v * v for v in fa) / len(fa)) if not adt else float(sum(int(v) * int(v) for v in a)) / len(fa)
     if snr is None:
         exp = [float(std if std is not None else 1.0)] * len(fa)
     else:
@@ -95,7 +98,7 @@ def check_noise(case):
         exp = [math.sqrt(power / (10 ** (q / 10.0) if db else q)) for q in snrs]
     sc = np.broadcast_to(np.asarray(scale, dtype=float), (len(fa),))
     rtol = 1e-6 if sdt == "float32" else 1e-9      # a float32 request is honoured to float32 precision
-    if any(abs(float(p) - q) > rtol * max(1.0, q) for p, q in zip(sc, exp)):
+    if any(not abs(float(p) - q) <= rtol * max(1.0, q) for p, q in zip(sc, exp)):
         fails.append(fail("noise-scale-definition", {"observed": sc, "expected": exp}, key))
     out = np.asarray(out, dtype=float)
     if out.shape != (len(fa),):
@@ -103,7 +106,7 @@ def check_noise(case):
     else:
         u = np.array([1.0 if i % 2 == 0 else -1.0 for i in range(len(fa))])
         expo = np.array(fa) + np.array(exp) * u
-        if np.any(np.abs(out - expo) > rtol * np.maximum(1.0, np.abs(expo))):
+        if not np.all(np.abs(out - expo) <= rtol * np.maximum(1.0, np.abs(expo))):
             fails.append(fail("not-additive", {"observed": out, "expected": expo}, key))
     if path == "process" and not fails:
         with Seam() as s2:
@@ -174,6 +177,21 @@ def harnesses(tier, seed):
         if k == 3 and path == "weaver" and fi == 0:
             ctx.sample({"signals": "V+-^3 \\ {0}", "snr": forms[fi][0], "db": True, "path": path})
 
+    def int_body(ctx):
+        """integer-typed signals (counters in bit/s): magnitudes up to the largest a 64-bit / 32-bit counter holds"""
+        adt, mag = ctx.choose([("int64", 1), ("int64", 10 ** 6), ("int64", 10 ** 9), ("int64", 10 ** 10), ("int64", 10 ** 18),
+                               ("int32", 1000), ("int32", 10 ** 5), ("int32", 7 * 10 ** 8), ("uint8", 60), ("int16", 9000)], "dtype-magnitude")
+        k = ctx.choose([1, 2, 3, 5, 24], "k")
+        path = ctx.choose(["process", "weaver"], "path")
+        vals = A.VPM if adt[0] != "u" else (0, 1, 2, 3)
+        sigs = list(itertools.product(vals, repeat=k)) if k <= 3 else [tuple(vals[(3 * i + j) % 4] for i in range(k)) for j in range(4)]
+        for a in sigs:
+            if not any(a):
+                continue
+            for (snr, db, std) in ((10, True, None), (4.0, False, None), (None, True, 2.0)):
+                judge(ctx, check_noise, {"a": [v * mag for v in a], "snr": snr, "db": db, "std": std, "path": path, "a_dtype": adt},
+                      bulk=True, nontrivial=len(set(a)) > 1)
+
     def long_body(ctx):
         L = ctx.choose([50, 400], "len")
         pat = ctx.choose(3, "pattern")
@@ -190,5 +208,5 @@ def harnesses(tier, seed):
         snr, db = ctx.choose([(10, True), (0, True), (30, True), (4.0, False)], "snr")
         judge(ctx, check_real, {"seed": s, "signal": sig, "snr": snr, "db": db}, calls=2)
 
-    return [{"name": "scale-at-seam", "body": body}, {"name": "long-signals", "body": long_body},
+    return [{"name": "scale-at-seam", "body": body}, {"name": "integer-typed-signals", "body": int_body}, {"name": "long-signals", "body": long_body},
             {"name": "real-generator", "body": real_body, "workers": None}]
